@@ -186,7 +186,9 @@ def register(R):
 
 
 ROOTS = [f'{TC}._run_callback', f'{TC}._run_callbacks', f'{TC}._run_done_callbacks', f'{TC}._run_failure_cleanups',
-         f'{TC}.announce_done', f'{TC}.add_done_callback', f'{TC}.add_failure_cleanup', f'{T}:SubmissionTask._main']
+         f'{TC}.announce_done', f'{TC}.add_done_callback', f'{TC}.add_failure_cleanup', f'{T}:SubmissionTask._main',
+         # a size supplied during on_queued suppresses the size-discovery request
+         's3transfer.download:DownloadSubmissionTask._submit', 's3transfer.copies:CopySubmissionTask._submit']
 
 
 def configure(eng):
